@@ -4,6 +4,7 @@ package main
 // correspondence cases (pre-state, operation, observed class, post-state).
 
 import (
+	"encoding/binary"
 	"encoding/hex"
 	"errors"
 	"fmt"
@@ -223,12 +224,17 @@ func (h *Hist) Exec(op Op) Op {
 		c.Mint(h.acc(op.A), sdk.NewCoin(op.Denom, amt(op.Amt)))
 		h.cur, op.Res = nil, "ok"
 	case "delegate":
+		pre := h.snap()
 		err := try(func(ctx sdk.Context) error {
 			_, e := sms.Delegate(ctx, &stakingtypes.MsgDelegate{DelegatorAddress: h.acc(op.A).String(), ValidatorAddress: h.val(op.V), Amount: sdk.NewCoin("FX", amt(op.Amt))})
 			return e
 		})
 		h.cur, op.Res = nil, res(err)
+		if err == nil {
+			h.follow(op, pre, h.snap())
+		}
 	case "undelegate":
+		pre := h.snap()
 		err := try(func(ctx sdk.Context) error {
 			_, e := sms.Undelegate(ctx, &stakingtypes.MsgUndelegate{DelegatorAddress: h.acc(op.A).String(), ValidatorAddress: h.val(op.V), Amount: sdk.NewCoin("FX", amt(op.Amt))})
 			return e
@@ -236,6 +242,9 @@ func (h *Hist) Exec(op Op) Op {
 		h.cur, op.Res = nil, res(err)
 		if err == nil && h.isMoved(op.A) {
 			h.tags["target-undelegated"] = true
+		}
+		if err == nil {
+			h.follow(op, pre, h.snap())
 		}
 		h.mon.FollowUp(op, err)
 	case "redelegate":
@@ -246,6 +255,7 @@ func (h *Hist) Exec(op Op) Op {
 		h.cur, op.Res = nil, res(err)
 		h.mon.FollowUp(op, err)
 	case "withdraw":
+		pre := h.snap()
 		dms := distrkeeper.NewMsgServerImpl(c.App.DistrKeeper)
 		var got sdk.Coins
 		err := try(func(ctx sdk.Context) error {
@@ -258,6 +268,9 @@ func (h *Hist) Exec(op Op) Op {
 		h.cur, op.Res = nil, res(err)
 		if err == nil && h.isMoved(op.A) && !got.IsZero() {
 			h.tags["target-withdrew"] = true
+		}
+		if err == nil {
+			h.follow(op, pre, h.snap())
 		}
 		h.mon.FollowUp(op, err)
 	case "createval":
@@ -402,6 +415,83 @@ func (h *Hist) Exec(op Op) Op {
 	return op
 }
 
+// follow: emit the correspondence case of a successful delegate / undelegate / withdraw. The validator-side
+// answers (reward, new starting info, shares issued / tokens returned, completion time, unbonding id) are read
+// off the real pre/post states; the model must reproduce every record, index and queue write from them.
+func (h *Hist) follow(op Op, pre, post *Snap) {
+	if h.cw.follow >= h.cw.followLimit {
+		return
+	}
+	c := h.c
+	val, err := c.App.StakingKeeper.GetValidator(c.Ctx, sdk.ValAddress(h.acc(op.V)))
+	if err != nil || !val.IsBonded() {
+		return
+	}
+	a, v := h.id(op.A), h.id(op.V)
+	balOf := func(s *Snap) *big.Int {
+		for _, b := range s.Bal {
+			if b.A == a && b.D == 0 {
+				return b.X
+			}
+		}
+		return new(big.Int)
+	}
+	sharesOf := func(s *Snap) *big.Int {
+		for _, d := range s.Dels {
+			if d.KA == a && d.KV == v {
+				return d.Shares
+			}
+		}
+		return new(big.Int)
+	}
+	unbOf := func(s *Snap) *big.Int {
+		t := new(big.Int)
+		for _, u := range s.Ubds {
+			if u.KA == a && u.KV == v {
+				for _, e := range u.Entries {
+					t.Add(t, e.Bal)
+				}
+			}
+		}
+		return t
+	}
+	start := "(SI 0 0 0)"
+	for _, x := range post.Start {
+		if x.A == a && x.V == v {
+			start = "(SI " + z(x.Period) + " " + zb(x.Stake) + " " + z(x.Height) + ")"
+		}
+	}
+	sp, err := c.App.StakingKeeper.GetParams(c.Ctx)
+	lib.Must(err)
+	var idb int64
+	for _, kv := range c.DumpPrefix(c.Ctx, "staking", []byte{0x37}) {
+		idb = int64(binary.BigEndian.Uint64(kv.V))
+	}
+	delta := new(big.Int).Sub(balOf(post), balOf(pre))
+	ans := func(reward, amount *big.Int) string {
+		return fmt.Sprintf("(VA %s %s %s true %s %s %d)", zb(reward), start, zb(amount), z(pre.Now+sp.UnbondingTime.Nanoseconds()), z(idb), sp.MaxEntries)
+	}
+	var cop string
+	switch op.Kind {
+	case "delegate":
+		cop = fmt.Sprintf("CDelegate %s %s %s %s", z(a), z(v), zb(amt(op.Amt).BigInt()),
+			ans(new(big.Int).Add(delta, amt(op.Amt).BigInt()), new(big.Int).Sub(sharesOf(post), sharesOf(pre))))
+	case "undelegate":
+		cop = fmt.Sprintf("CUndelegate %s %s %s %s", z(a), z(v), zb(new(big.Int).Sub(sharesOf(pre), sharesOf(post))),
+			ans(delta, new(big.Int).Sub(unbOf(post), unbOf(pre))))
+	case "withdraw":
+		cop = fmt.Sprintf("CWithdraw %s %s %s", z(a), z(v), ans(delta, new(big.Int)))
+	default:
+		return
+	}
+	n := len(h.cw.items)
+	h.cw.Add(pre, cop, "OOk", post, h.cfg)
+	if len(h.cw.items) > n {
+		h.cw.follow++
+		h.rep.Count("follow-case:" + op.Kind)
+	}
+}
+
 func (h *Hist) isMoved(a int) bool {
 	for _, t := range h.moved {
 		if t == a {
@@ -426,6 +516,7 @@ func textMsgs() []*codecAny {
 type replayT struct {
 	Seed int64 `json:"seed"`
 	Ops  []Op  `json:"ops"`
+	Twin []Op  `json:"twin_ops,omitempty"` // twin run: the operations of the chain that does not migrate
 }
 
-func (h *Hist) replay() replayT { return replayT{h.seed, append([]Op{}, h.ops...)} }
+func (h *Hist) replay() replayT { return replayT{Seed: h.seed, Ops: append([]Op{}, h.ops...)} }
